@@ -54,6 +54,8 @@ REQUIRED_FACTS = {
                        '((bs "stderr"), (bs "stderr-capture"))]',
     'runcmd_other_cmd_fields': '(@nil str)',
     'intotorun_cmdargs_calls': '[(bs "len(cmdArgs)"); (bs "RunCommand(cmdArgs, runDir)")]',
+    'intotorun_byproducts_uses': '[(bs "byProducts := map[string]interface{}{}"); '
+                                 '(bs "byProducts, err = RunCommand(cmdArgs, runDir)"); (bs "ByProducts: byProducts")]',
     'waiterr_default': '(Some (-1)%Z)',
     'waiterr_on_nil': '(Some 0%Z)',
     'waiterr_on_exiterror': 'ExExitStatus',
@@ -111,7 +113,7 @@ def correspondence(ctx):
     corr.rule = ("scripts for a helper child process run through in_toto.RunCommand / InTotoRun under a 20 s deadline: "
                  "0..512 KiB (quick) / 0..4 MiB (thorough) per stream; fixed classes always present (more than a pipe buffer "
                  "to stderr before stdout closes, large stdout then large stderr and the reverse, alternating small writes, "
-                 "pipe-size boundaries, zero output, exit codes 0,1,2,126,127,128,255 + random, SIGKILL/SIGTERM, own closes, "
+                 "pipe-size boundaries, zero output, literal CRLF / lone CR / CR at chunk ends / NUL / invalid UTF-8 with lineNormalization on and off, lingering descendants, commands relative to the run directory, exit codes 0,1,2,126,127,128,255 + random, SIGKILL/SIGTERM, own closes, "
                  "working directories existing / with spaces / missing, missing executable, empty and nil args, InTotoRun "
                  "by-products) plus random interleavings of up to 14 writes with closes, sleeps, exits and signals. "
                  "non-trivial = the child writes something or dies by a signal, or the command cannot be started / is empty; "
